@@ -191,7 +191,9 @@ CHECKS = {
             "slot/target addresses below 2^62 - so reads and writes through the reference are reads and writes of the original's "
             "bytes), C08_growth_deref / C08_growth_value (a reference and its referent's value are unchanged by growth), "
             "C08_copy_fresh (referents created for plain data or foreign objects are placed by the allocator: in bounds and disjoint "
-            "from every live object).",
+            "from every live object), C08_alias_value (value level: what is read through a reference is the referent's value; a "
+            "store of any scalar element of the referent - through the reference, the original handle or another reference - is "
+            "read by all of them as exactly that element replaced, and the reference still denotes the same object).",
             "Partial: the invariant over whole histories (every non-null reference of every live object resolves to a live object "
             "of the recorded member type) is established by the oracle on generated histories, not by induction in Lean.",
             "7/C08"),
